@@ -5,6 +5,7 @@ CONSTANT ExtraIds = {1, 11, 12, 13, 16, 17, 21, 99, 1000, 32767}
 CONSTANT Design = "fixed"
 CONSTANT LkaOffKinds = {"ntn", "ntc", "dmq"}
 CONSTANT LkaOffFull = TRUE
+CONSTANT StopScope = "all"
 INIT Init
 NEXT Next
 INVARIANT TypeOK
@@ -14,3 +15,4 @@ INVARIANT ResponderOnlyNeverDeliversResponse
 INVARIANT StartedIffEnabled
 INVARIANT EnabledIsReachable
 INVARIANT LocalOptInOnlyAffectsOwnInitiator
+INVARIANT StopRemovesExactlyThatPair
